@@ -379,7 +379,7 @@ fn random_plan(rng: &mut Rng, writers: &mut usize) -> Plan {
 }
 
 fn main() {
-    quiet_panics();
+    quiet_handler_panics();
     let rt = Arc::new(
         tokio::runtime::Builder::new_multi_thread().worker_threads(8).enable_all().build().unwrap(),
     );
